@@ -59,15 +59,17 @@ func (g *gen) Generate(typs []types.Type) error {
 	if !ok {
 		return fmt.Errorf("%s, the first argument, %s, is not of type map", g.GetFuncName(typ), typ)
 	}
-	return g.genFuncFor(mapType)
+	return g.genFuncFor(typ, mapType)
 }
 
-func (g *gen) genFuncFor(typ *types.Map) error {
+// genFuncFor generates the function for the type, which is a map or a named type that has the map as its underlying type.
+// The function is generated for the type itself, otherwise two named types with the same underlying map would share a single function.
+func (g *gen) genFuncFor(typ types.Type, mapType *types.Map) error {
 	p := g.printer
 	g.Generating(typ)
 	name := g.GetFuncName(typ)
 	typeStr := g.TypeString(typ)
-	keyType := typ.Key()
+	keyType := mapType.Key()
 	keyTypeStr := g.TypeString(keyType)
 	p.P("")
 	p.P("// %s returns the keys of the input map as a slice.", name)
